@@ -15,14 +15,14 @@ ARENA_BOUNDS = [
 ]
 
 
-def t_instr_conds(oracle, tier, timeout=150):
+def t_instr_conds(oracle, tier, timeout=150, fn="t_instr", kinds=None):
     conds = []
-    for kind in range(M.N_KINDS):
+    for kind in (kinds if kinds is not None else range(M.N_KINDS)):
         for ik in range(M.N_INSTR):
             conds.append(
                 Cond(
                     "vf.h.t_instr",
-                    "t_instr",
+                    fn,
                     case=kind * M.N_INSTR + ik,
                     timeout=timeout,
                     env={"VF_ORACLE": oracle},
@@ -32,9 +32,44 @@ def t_instr_conds(oracle, tier, timeout=150):
                 )
             )
     # reachability twins: one per previous activity
-    for kind in range(M.N_KINDS):
+    for kind in (kinds if kinds is not None else range(M.N_KINDS)):
         conds.append(
             Cond("vf.h.t_instr", "t_instr_reach", case=kind * M.N_INSTR, timeout=60, env={"VF_ORACLE": oracle},
                  expect="refute", label=f"T-instr-reach[{M.KIND_NAMES[kind]}]")
         )
     return conds
+
+
+def t_upd_conds(oracle, tier, kinds=None, timeout=240, dt_max=None):
+    conds = []
+    env = {"VF_ORACLE": oracle}
+    if dt_max is not None:
+        env["VF_DT_MAX"] = str(dt_max)
+    for kind in (kinds if kinds is not None else range(M.N_KINDS)):
+        conds.append(
+            Cond("vf.h.t_upd", "t_upd", case=kind, timeout=timeout, env=dict(env),
+                 label=f"T-upd[{M.KIND_NAMES[kind]}]", weight=20 if kind in (3, 7, 9, 10) else 8)
+        )
+        conds.append(
+            Cond("vf.h.t_upd", "t_upd_reach", case=kind, timeout=60, env=dict(env), expect="refute",
+                 label=f"T-upd-reach[{M.KIND_NAMES[kind]}]", weight=1)
+        )
+    return conds
+
+T_BOUNDS = [
+    "T-instr: 1 modelled vehicle; 13 previous activities x 16 instructions; cells = both targets + one unrelated cell; plugs {LEVEL_2, DCFC, not installed, gas pump}; "
+    "membership scenarios {all public, vehicle f1 / targets f2, vehicle f1 / targets f1+f2}; request record {none, this vehicle, another vehicle}; BEV and ICE",
+    "T-upd: 1 modelled vehicle; energy in [0, capacity] (float, real-arithmetic model); step length 1..300 s (1..150 s for charging activities); "
+    "single-link haversine routes of 0.4-2 km at 40 km/h; price in [0, 10]; arena BEV uses hive's TabularPowercurve with a 4-point table",
+]
+T_OUTSIDE = [
+    "custom Instruction / VehicleState subclasses",
+    "which h3 cell an interpolated point falls in (C library): solver-chosen among cells on the link",
+    "IEEE rounding (floats modelled as reals; counterexamples are replayed under IEEE with 1e-9 tolerance)",
+    "multi-link routes in T-upd (covered by the traversal harnesses of C06)",
+]
+STUBS_UPD = [
+    "h3.geo_to_h3 on a symbolic coordinate (inside H3Ops.point_along_link) returns a solver-chosen cell on the link (H3Shim)",
+    "np.interp replaced by an equivalent pure-Python piecewise-linear model (NpShim), cross-checked against numpy",
+    "SimulationState.sim_time carried by SymTime (SimTime subclasses int: constructing it would realise the symbolic value); time_diff on seconds-of-day",
+]
